@@ -1,5 +1,5 @@
 /-
-The tie by translation (DESIGN §3.3): every definition that `translator/py2lean.py` regenerates
+The tie by translation (DESIGN §3.3): the definition of `PriEntry.__lt__` that `translator/py2lean.py` regenerates (the other units have their own GenEq files)
 from /repo/src on each run is proved equal to the hand-written model definition that the property
 theorems are about.  If the code changes, `Asynkit/Gen/*.lean` changes; either these equalities
 still prove (harmless rewrite) or this file no longer builds (broken proof obligation).
